@@ -50,6 +50,19 @@ class C19(Prop):
                 yield Case('transform', ('fieldmap', (('kk', ('fieldconv', 'k', ('fn', 3))), ('aa', ('field', 'a'))), pol, ev, t),
                            meta)
                 yield Case('transform', ('rowmap', 1, ('k', 'n'), pol, t), meta)
+                # failing cells that are tuples (empty, singleton, longer)
+                tt = (t[0],) + tuple((rng.choice([(), (1,), (1, 'x'), (None, 2, 3)]),) + r[1:] if r[0] in (2, 'x') else r
+                                     for r in t[1:])
+                yield Case('transform', ('convert', (('k', ('fn', 9)),), pol, ev, None, tt), meta)
+                yield Case('transform', ('fieldmap', (('kk', ('fieldconv', 'k', ('fn', 9))), ('aa', ('field', 'a'))), pol, ev, tt),
+                           meta)
+                # mappers whose failure only shows when the result is turned into a row (lazy result / no result)
+                yield Case('transform', ('rowmap', 2, ('k', 'n'), pol, t), meta)
+                yield Case('transform', ('rowmap', 3, ('k', 'n'), pol, t), meta)
+                # a `where` guard that keeps the converter away from the cells it would fail on: nothing fails, under any policy
+                yield Case('transform', ('convert', (('k', ('fn', 3)),), pol, ev, ('field', 'k', ('eq', 1)), t), meta)
+                yield Case('transform', ('convert', (('k', ('fn', 7)), ('a', ('fn', 0))), pol, ev, ('field', 'k', ('isnone',)), t),
+                           meta)
                 yield Case('transform', ('rowmapmany', 0, ('k', 'variable', 'value'), pol, t), meta)
 
     def impl(self, case):
@@ -78,7 +91,12 @@ class C19(Prop):
         nm = case.arg[0]
         t = case.arg[-1]
         pol = case.arg[2] if nm in ('convert', 'fieldmap') else case.arg[3]
-        fails = [r[0] in (2, 'x') for r in t[1:]]
+        fails = [r[0] in (2, 'x') or isinstance(r[0], tuple) for r in t[1:]]
+        if nm == 'convert' and case.arg[4] is not None:
+            fails = [False for _ in fails]          # the guards used here reject every cell the converter fails on
+            if impl_obs[0] == 'li' and any(tuple(codec.canon(x) for x in r) != o[1]
+                                           for r, o in zip(t[1:], impl_obs[1][1:]) if r[0] in (2, 'x')):
+                return False                        # rows rejected by the guard pass through unchanged
         if pol is False or pol == 'inline':
             if impl_obs[0] != 'li':
                 return False                      # nothing may be raised
@@ -109,7 +127,7 @@ class C19(Prop):
             return False
 
     def nontrivial(self, case):
-        return any(r[0] in (2, 'x') for r in case.arg[-1][1:])
+        return any(r[0] in (2, 'x') or isinstance(r[0], tuple) for r in case.arg[-1][1:])
 
 
 PROP = C19
